@@ -522,6 +522,8 @@ fn c24(args: &Args, report: &Report) {
         report.require("after_failure.next_attempt_same_height", 300 * k);
         report.require("leader_state.follower", 200 * k);
         report.require("db_height.stale", 20 * k);
+        report.require("tip_check.judged", 2_000 * k);
+        report.require("tip_check.tip_ahead_of_run_start_height", 150 * k);
     }
 }
 
@@ -540,6 +542,7 @@ fn main() {
         port-call outcomes with heights relative to the start height.";
     let assumptions = [
         "ports deliver valid chain continuations: network, reconciliation and predefined blocks extend the mock DB tip with non-decreasing timestamps; the mock importer rejects any height other than tip+1 (as the real importer does)",
+        "a trigger-driven production is additionally judged against the mock chain tip at the moment the task asked for its leader state (independent of whether it queried latest_block_height; excused only if that query was answered with an injected error/None/stale height); manual production is not, because the unchanged task never queries the tip on that path",
         "heights are judged against what the service was told: start header, own successful commits, successful reconciliation imports, latest_block_height() replies (must-know) and headers pushed on block_stream (may-know; envelope when racing, exact otherwise)",
         "block-time spacing is judged only for trigger-produced blocks under Trigger::Interval whose predecessor was a successful local commit with no foreign block delivered in between",
         "reconciliation imports issued after a failed import in the same batch are not judged for height contiguity (counted as excluded)",
